@@ -5,7 +5,10 @@ from mirsym.program import Program
 from mirsym.driver import explore
 
 
-def load_program(mir='/verif/.build/core.mir', crate='/repo/core', ws='/repo'):
+def load_program(mir=None, crate='/repo/core', ws='/repo'):
+    if mir is None:
+        from checker import build
+        mir, _ = build.core_mir()
     return Program(open(mir).read(), crate, ws)
 
 
@@ -16,7 +19,8 @@ if __name__ == '__main__':
     t0 = time.time()
     prog = load_program()
     print('program loaded in %.2fs' % (time.time() - t0))
-    for h in mod.HARNESSES:
+    tier = 'thorough' if '--thorough' in sys.argv else 'quick'
+    for h in mod.harnesses(tier):
         if flt and flt not in h.name:
             continue
         res = explore(prog, h, verbose=verbose)
